@@ -75,18 +75,33 @@ def resolve(qual):
     return obj
 
 
+class Budget(Exception):
+    pass
+
+
 def impl_main():
+    import signal
+
+    def on_alarm(signum, frame):
+        raise Budget()
+    signal.signal(signal.SIGALRM, on_alarm)
     out = []
     for c in json.load(sys.stdin):
         try:
             f = resolve(c["fn"])
-            r = f(*[dec(a) for a in c["args"]])
+            signal.setitimer(signal.ITIMER_REAL, 0.4)          # a call that runs this long counts as not terminating (model: fuel exhausted)
+            try:
+                r = f(*[dec(a) for a in c["args"]])
+            finally:
+                signal.setitimer(signal.ITIMER_REAL, 0)
             try:
                 out.append(dict(ok=enc(r)))
             except Unrepresentable as u:
                 out.append(dict(skip=str(u)))
         except RecursionError:
             out.append(dict(skip="recursion"))
+        except (Budget, MemoryError):
+            out.append(dict(exn="Diverges"))
         except Exception as e:  # noqa
             out.append(dict(exn=type(e).__name__))
     print(json.dumps(out))
